@@ -235,7 +235,14 @@ def attach_scc_subdiagram(
         else:
             # This node can be marked as expanded, because we know its successors.
             # We just need to add them in the for loop below.
-            sd.node_data(main_node_id)["expanded"] = True
+            main_data = sd.node_data(main_node_id)
+            if not main_data["expanded"]:
+                # Attractor data computed while the node had no successors
+                # is no longer valid.
+                main_data["attractor_seeds"] = None
+                main_data["attractor_candidates"] = None
+                main_data["attractor_sets"] = None
+            main_data["expanded"] = True
 
         if check_maa:
             if len(scc_sd.node_attractor_candidates(scc_node_id, compute=True)) == 0:
@@ -259,7 +266,14 @@ def attach_scc_subdiagram(
             sd._ensure_edge(main_node_id, main_succ_id, inner_stable_motif)  # type: ignore
 
     # This makes the `attach_at` node expanded. We will not be adding new nodes to it later.
-    sd.node_data(attach_at)["expanded"] = True
+    attach_data = sd.node_data(attach_at)
+    if not attach_data["expanded"]:
+        # Attractor data computed while the node had no successors
+        # is no longer valid.
+        attach_data["attractor_seeds"] = None
+        attach_data["attractor_candidates"] = None
+        attach_data["attractor_sets"] = None
+    attach_data["expanded"] = True
     # Finally, if we are checking for MAAs, we can do that for the root too:
     if check_maa:
         if len(scc_sd.node_attractor_candidates(scc_sd.root(), compute=True)) == 0:
